@@ -368,12 +368,42 @@ func c16b(c *Ctx) {
 			next, ops := nextWriteAfter(c, fn, call, call.Common().Args[0])
 			if next != nil && len(ops) == 1 && strings.HasPrefix(ops[0], `strings.Split($1.Value,"\n")[`) {
 				idx := strings.TrimSuffix(strings.TrimPrefix(ops[0], `strings.Split($1.Value,"\n")[`), "]")
-				if ln == "($1.Token.LineNumber + "+idx+")" || ln == "("+idx+" + $1.Token.LineNumber)" {
+				if m := regexpMust(`^\(\$1\.[A-Za-z_][A-Za-z_0-9]*\.LineNumber \+ (.*)\)$`).FindStringSubmatch(ln); m != nil && m[1] == idx {
+					ok = true
+				}
+				if m := regexpMust(`^\((.*) \+ \$1\.[A-Za-z_][A-Za-z_0-9]*\.LineNumber\)$`).FindStringSubmatch(ln); m != nil && m[1] == idx {
 					ok = true
 				}
 			}
 		}
-		c.Check(ok, "emitRawStatement/marker-per-line", c.W.FuncPos(fn), "raw line i is preceded by a marker for line Token.LineNumber + i", "raw lines are not each preceded by a marker computed from the raw token's line and the line index")
+		c.Check(ok, "emitRawStatement/marker-per-line", c.W.FuncPos(fn), "raw line i is preceded by a marker for line <token>.LineNumber + i", "raw lines are not each preceded by a marker computed from the raw token's line and the line index")
+		// … and that token is the one the text came from: line i of Value was written i lines
+		// below the token whose literal Value is (the back-quoted string), wherever the `raw`
+		// keyword itself stands
+		field := ""
+		for _, call := range callsToIn(fn, emit) {
+			ln := c.term(fn, call.Common().Args[1])
+			if m := regexpMust(`\$1\.([A-Za-z_][A-Za-z_0-9]*)\.LineNumber`).FindStringSubmatch(ln); m != nil {
+				field = m[1]
+			}
+		}
+		if pr := c.Fn("parser.Parser.parseRawStatement"); pr != nil && field != "" {
+			okTok := false
+			got, val := "", ""
+			for _, a := range allocsOf(pr, "ast", "RawStatement") {
+				for _, r := range returnsOf(pr) {
+					if !isSuccessReturn(r) || len(r.Results) == 0 || r.Results[0] != ssa.Value(a) {
+						continue
+					}
+					got = c.fieldAtUse(pr, a, field, r)
+					val = c.fieldAtUse(pr, a, "Value", r)
+					if strings.HasSuffix(val, ".Literal") && got == strings.TrimSuffix(val, ".Literal") {
+						okTok = true
+					}
+				}
+			}
+			c.Check(okTok, "emitRawStatement/marker-line-of-the-text", c.W.FuncPos(pr), "the token the raw markers count from is the token that holds the raw text", "raw markers count lines from RawStatement."+field+" = "+pretty(got)+" but the text is the literal of "+pretty(strings.TrimSuffix(val, ".Literal"))+": when the `raw` keyword and the opening back quote are on different lines every marker names a line above the one its text was written on")
+		}
 	}
 }
 
